@@ -47,6 +47,11 @@ def reduce_paramsets_requirements(paramsets_requirements, paramsets_user_configs
             default_v = combined_paramset[k].pop()
             # get user-defined-config if it exists or set to default config
             v = paramset_user_configs.get(k, default_v)
+            # a default of None marks a setting that must be configured
+            if v is None:
+                raise exceptions.InvalidModel(
+                    f"{paramset_name} requires the '{k}' attribute to be configured, but no value was provided."
+                )
             # if v is a tuple, it's not user-configured, so convert to list
             if v == 'undefined':
                 continue
